@@ -172,7 +172,9 @@ CHECKS = {
              "given table); c08_expand_template_is_the_call_on_the_page: on the flat fragment of C04 (plain name and arguments, a "
              "template of text and parameter references, or none) the expander model gives, under EVERY expansion path shorter "
              "than the depth limit in which the template is not looping (the path inside a Lua callback included), exactly what "
-             "the same call gives written on the page - the transclusion rule's result. "
+             "the same call gives written on the page - the transclusion rule's result; "
+             "c08_preprocess_is_expansion_on_the_page: text and flat calls expanded under any such path (frame:preprocess) give "
+             "what they give on the page. "
              "frame.args, getParent (title and arguments through wrapper depth 1-2), preprocess, expandTemplate "
              "and callParserFunction are each compared on the real code with the expansion of the equivalent wikitext on the "
              "same context; frame.args also with the Coq model on the expanded argument texts.",
